@@ -143,7 +143,7 @@ func (s *Server) Start(c channel.Channel) *Server {
 	// goroutine to s.wg. At server shutdown, s.wg completes when the
 	// maintenance goroutines and all pending requests are finished.
 	s.wg.Add(2)
-	vhook.Event("srv.start", s)
+	vhook.Event("srv.start", s, c)
 
 	// Accept requests from the client and enqueue them for processing.
 	go func() { defer s.wg.Done(); s.read(c) }()
